@@ -105,6 +105,9 @@ def _family(rng):
     M = ev.Transpose(ev.InsertAxis(A, ev.constant(2)), (1, 0)) * ev.InsertAxis(infl(v2, [1, 0], 2), ev.constant(5))  # 2 x 5, two clusters
     out.append(('Multiply of two clusters', M))
     out.append(('Multiply of two clusters, transposed', ev.Transpose(M, (1, 0))))
+    M3 = ev.InsertAxis(a23, ev.constant(5)) * ev.Transpose(ev.InsertAxis(ev.InsertAxis(A, ev.constant(2)), ev.constant(3)), (1, 2, 0))  # dense 2-axis cluster x inflated vector
+    out.append(('Multiply of a dense matrix cluster and an inflated vector', M3))
+    out.append(('Multiply dense cluster, transposed', ev.Transpose(M3, (1, 0, 2))))
     out.append(('Ravel', ev.Ravel(M)))
     out.append(('Ravel of InsertAxis', ev.Ravel(ev.InsertAxis(A, ev.constant(3)))))
     out.append(('Unravel', ev.Unravel(infl(a6, [5, 0, 7, 2, 3, 9], 12), ev.constant(3), ev.constant(4))))
